@@ -720,6 +720,10 @@ impl<K: KeyT> Runner for SetRunner<K> {
         (size, std::mem::align_of::<(K, ())>(), K::DROP, K::IDS)
     }
     fn op(&mut self, tgt: &str, name: &str, args: &[&str]) -> String {
+        let cap_before = {
+            let m = self.get(tgt);
+            (m.len(), m.capacity(), m.allocation_size())
+        };
         loud();
         tape::with(|t| t.events.clear());
         tape::take_returned();
@@ -729,6 +733,13 @@ impl<K: KeyT> Runner for SetRunner<K> {
         };
         quiet();
         let own_flags = crate::exec::own_flags_take();
+        {
+            let m = self.get(tgt);
+            let cap_after = (m.len(), m.capacity(), m.allocation_size());
+            if let Some(why) = crate::exec::cap_oracle(name, args, &ret, cap_before, cap_after) {
+                ret.push_str(&format!(" ORACLE-CAP({})", why.replace([' ', '(', ')'], "_")));
+            }
+        }
         let evs = tape::peek_events();
         if let Some(why) = self.ledger_step(name, args, &evs) {
             ret.push_str(&format!(" ORACLE-LEDGER({})", why.replace(' ', "_")));
